@@ -8,6 +8,8 @@ mod rng;
 mod gen;
 mod c01;
 mod c06;
+mod c07;
+mod c18;
 
 use std::io::{BufRead, Write};
 use std::panic;
@@ -23,6 +25,8 @@ fn exec_line(line: &str) -> String {
         match prop.as_str() {
             "C01" => c01::exec(&op, &a),
             "C06" => c06::exec(&op, &a),
+            "C07" => c07::exec(&op, &a),
+            "C18" => c18::exec(&op, &a),
             _ => format!("harness-unknown-property {}", prop),
         }
     });
@@ -65,6 +69,8 @@ fn main() {
             match prop {
                 "C01" => c01::generate(&mut rng, tier, shard, nshards, &mut emit),
                 "C06" => c06::generate(&mut rng, tier, shard, nshards, &mut emit),
+                "C07" => c07::generate(&mut rng, tier, shard, nshards, &mut emit),
+                "C18" => c18::generate(&mut rng, tier, shard, nshards, &mut emit),
                 _ => { eprintln!("unknown property {}", prop); std::process::exit(2); }
             }
         }
